@@ -2,7 +2,7 @@
 from props import skelgroups as SG
 
 PROP = "C07"
-FAMILIES = ["herm"]
+FAMILIES = ["herm", "gen"]
 
 
 def build(tier):
